@@ -17,6 +17,7 @@ import TonVerif.Proofs.LocateBind
 import TonVerif.Proofs.SrcArith2
 import TonVerif.Generated.ProofChecks
 import TonVerif.Proofs.SrcProof
+import TonVerif.Proofs.SrcProofCtor
 
 namespace TonVerif.Properties.C11
 open TonVerif TonVerif.Model TonVerif.Proofs.CellSpec TonVerif.Proofs.Prune TonVerif.Proofs.Merkle
@@ -1078,17 +1079,47 @@ theorem c11_src_sound_shape (c : PCell) (h : Bytes) (hacc : check_proof c h = so
       c.data = [3] ++ h ++ Spec.be2 d :=
   c11_sound_shape c h ((check_proof_some_iff c h).1 hacc)
 
-/-- SOUNDNESS for the regenerated code (`c11_sound`): if the regenerated `check_proof` returns on the constructed proof cell then,
-for EVERY tree `t` whose level-0 hash is `h`, the proof body `p` agrees with `t` at level 0 — under the local no-collision
-hypothesis. -/
+/-- BINDING over the hashes the REGENERATED constructor computes (`srcInfo` = `Cell.__init__` of cell.py, re-translated on every run
+and applied bottom-up; gap (c) of design/translators-cell.md).  Two spec-valid trees of the shape of valid bags to which the
+regenerated constructor assigns the same level-`l` hash `Agree` at level `l` (`c11_binding`: same type, same bit string, same
+reference count, pairwise agreeing children, down to stored-hash pruned branches) - under the local no-collision hypothesis. -/
+theorem c11_src_binding (H : Bytes → Bytes) (h32 : ∀ x, (H x).length = 32) (p t : Cell) (l : Nat) (ip it : CellInfo)
+    (wfp : TreeWF H p) (wft : TreeWF H t) (shp : Shape p) (sht : Shape t)
+    (hip : Proofs.SrcCellCtor.srcInfo H p = some ip) (hit : Proofs.SrcCellCtor.srcInfo H t = some it)
+    (nocoll : ∀ x y, x ∈ reprs H p → y ∈ reprs H t → H x = H y → x = y)
+    (hh : ip.getHash l = it.getHash l) : Agree H l p t := by
+  rw [Proofs.SrcCellCtor.srcInfo_eq] at hip hit
+  obtain ⟨ip', sp, hip', hsp, hagp⟩ := tree_agrees H p wfp
+  obtain ⟨it', st, hit', hst, hagt⟩ := tree_agrees H t wft
+  rw [hip] at hip'; cases hip'
+  rw [hit] at hit'; cases hit'
+  rw [(hagp.2 l).1, (hagt.2 l).1] at hh
+  exact c11_binding H h32 p t l sp st shp sht hsp hst nocoll (Option.some.inj hh)
+
+/-- SOUNDNESS for the regenerated code (`c11_sound`), end to end over regenerated definitions: the proof OBJECT is built by the
+regenerated constructor (`srcPCell`: every cell of the proof tree through the regenerated `Cell.__init__`), the check is the
+regenerated `check_proof`.  If it returns then the object is a Merkle proof cell naming `h` and, for EVERY tree `t` whose level-0
+hash is `h`, the proof body `p` agrees with `t` at level 0 - under the local no-collision hypothesis. -/
 theorem c11_src_sound (H : Bytes → Bytes) (h32 : ∀ x, (H x).length = 32) (kind : Int) (bits : Bits) (p t : Cell)
     (c : PCell) (h : Bytes) (sp st : Spec.SInfo)
-    (wf : TreeWF H (.mk kind bits [p])) (hc : PCell.ofCell H (.mk kind bits [p]) = some c)
+    (wf : TreeWF H (.mk kind bits [p])) (hc : Proofs.SrcProofCtor.srcPCell H (.mk kind bits [p]) = some c)
     (hacc : check_proof c h = some ())
     (shp : Shape p) (sht : Shape t) (hsp : specInfo H p = some sp) (hst : specInfo H t = some st) (ht : st.hashAt 0 = h)
     (nocoll : ∀ x y, x ∈ reprs H p → y ∈ reprs H t → H x = H y → x = y) :
     c.info.kind = kMerkleProof ∧ pySlice c.data 1 33 = h ∧ Agree H 0 p t :=
-  c11_sound H h32 kind bits p t c h sp st wf hc ((check_proof_some_iff c h).1 hacc) shp sht hsp hst ht nocoll
+  c11_sound H h32 kind bits p t c h sp st wf (by rw [← Proofs.SrcProofCtor.srcPCell_eq]; exact hc)
+    ((check_proof_some_iff c h).1 hacc) shp sht hsp hst ht nocoll
+
+/-- COMPLETENESS end to end over regenerated definitions: the Merkle proof object over ANY pruning of a spec-valid level-0 tree can be
+built by the regenerated constructor and passes the regenerated `check_proof` and header check. -/
+theorem c11_src_complete_ctor (H : Bytes → Bytes) (t p : Cell) (s : Spec.SInfo)
+    (wft : TreeWF H t) (hs : specInfo H t = some s) (hlev : s.mask = 0) (hrel : PruneRel H 1 t p)
+    (h32 : (s.hashAt 0).length = 32 ∧ Bytes.WF (s.hashAt 0)) (hd : s.depthAt 0 ≤ 1022) :
+    ∃ c r, Proofs.SrcProofCtor.srcPCell H (merkleProofCell (s.hashAt 0) (s.depthAt 0) p) = some c ∧ c.refs = [r] ∧
+      Proofs.SrcProofCtor.srcPCell H p = some r ∧
+      check_proof c (s.hashAt 0) = some () ∧ check_block_header_proof_False r (s.hashAt 0) = some () := by
+  obtain ⟨c, r, h1, h2, h3, h4, h5⟩ := c11_src_complete H t p s wft hs hlev hrel h32 hd
+  exact ⟨c, r, by rw [Proofs.SrcProofCtor.srcPCell_eq]; exact h1, h2, by rw [Proofs.SrcProofCtor.srcPCell_eq]; exact h3, h4, h5⟩
 
 /-- the regenerated `check_block_header_proof(root, h, True)` returning `sh` (`c11_header_state_sound`): `root.get_hash(0) = h`,
 `root[2]` is a Merkle update cell, `sh` is the level-0 hash of its second child and the new-state hash stored in its data. -/
@@ -1153,6 +1184,127 @@ example : check_proof (fnProof fnBits) (List.replicate 32 7) = some () ∧
     check_proof (.mk ⟨-1, fnBits, 1, 0, [], []⟩ [fnChild]) (List.replicate 32 7) = none ∧
     check_block_header_proof_False fnChild (List.replicate 32 7) = some () ∧
     check_block_header_proof_True fnChild (List.replicate 32 7) = none := by decide +kernel
+
+/-- DESCRIPTOR MODE of the regenerated account check (`return_account_descr=True`): it returns a value EXACTLY when the plain mode
+returns - the descriptor is handed out only after ALL the comparisons of the plain mode (two roots, both `check_proof`s, header
+commitment, state hash, account state hash), made in the same order - and the value is the `ShardAccount` stored under the address
+in the proved state cell.  For ALL values of the declared externals. -/
+theorem c11_src_account_descr_mode {Shard ShardAccount : Type} (fromBoc : Bytes → Option (List PCell))
+    (deser : PCell → Option Shard) (get : Shard → Nat → Option ShardAccount) (cellOf : ShardAccount → PCell)
+    (proof blk addr : Bytes) (state : PCell) :
+    check_account_proof_True fromBoc deser get cellOf proof blk addr state =
+      ((check_account_proof_False fromBoc deser get cellOf proof blk addr state).bind fun _ =>
+        (fromBoc proof).bind fun roots => (roots[1]?).bind fun sc => (sc.refs[0]?).bind fun st =>
+          (deser st).bind fun sh => get sh (natOfBE addr)) ∧
+    ((check_account_proof_True fromBoc deser get cellOf proof blk addr state).isSome =
+      (check_account_proof_False fromBoc deser get cellOf proof blk addr state).isSome) :=
+  ⟨src_account_descr_eq fromBoc deser get cellOf proof blk addr state,
+   src_account_descr_isSome fromBoc deser get cellOf proof blk addr state⟩
+
+/-- `check_shard_proof` AS A WHOLE FUNCTION, regenerated from the source (early `return`, `raise` for a non-masterchain block,
+`Cell.from_boc`, the header comparison, both `check_proof`s and the state-hash commitment in source order, the `ShardHashes` lookup and
+the loop over the descriptor's leaves with its `return` inside), equals the hand model `checkShardProof` whose two Boolean parameters
+are now READ FROM THE SOURCE (`shardBlockInfoOk`, `findShardDescr`), for ALL values of the declared externals; the returned value is
+`none` for `blk == shrd_blk` and the descriptor found otherwise. -/
+theorem c11_src_shard_full {Shard BlockInfo ShardDict ShardDescr ShardEntry : Type} (fromBoc : Bytes → Option (List PCell))
+    (deser : PCell → Option Shard) (deserBlock : PCell → Option BlockInfo) (infoSeqno infoWorkchain : BlockInfo → Int)
+    (shardHashes : Shard → Option ShardDict) (shardGet : ShardDict → Int → Option ShardDescr)
+    (descrList : ShardDescr → List (Option ShardEntry)) (entryRootHash : ShardEntry → Bytes) (proof : Bytes) (blk shrd : BlkId) :
+    check_shard_proof fromBoc deser deserBlock infoSeqno infoWorkchain shardHashes shardGet descrList entryRootHash proof blk shrd =
+      if blk = shrd then some none
+      else if blk.workchain ≠ -1 then none
+      else (fromBoc proof).bind fun roots =>
+        if checkShardProof (shardBlockInfoOk deserBlock infoSeqno infoWorkchain blk.seqno blk.workchain)
+            (fun st => (findShardDescr deser shardHashes shardGet descrList entryRootHash shrd.workchain shrd.rootHash st).isSome)
+            false true roots blk.rootHash
+        then ((roots[1]?).bind fun s => (s.refs[0]?).bind fun st =>
+          findShardDescr deser shardHashes shardGet descrList entryRootHash shrd.workchain shrd.rootHash st).map some
+        else none :=
+  src_check_shard_proof_eq fromBoc deser deserBlock infoSeqno infoWorkchain shardHashes shardGet descrList entryRootHash proof blk shrd
+
+/-- SOUNDNESS read-out of the regenerated `check_shard_proof`: whenever it returns for two DIFFERENT block ids, `blk` is a masterchain
+block, the hand model accepts the two roots (both Merkle proofs checked, header committed to the state hash: `checkShardProof`) and the
+returned descriptor is one the masterchain state holds for `shrd_blk.workchain` with a leaf carrying `shrd_blk.root_hash`. -/
+theorem c11_src_shard_sound {Shard BlockInfo ShardDict ShardDescr ShardEntry : Type} (fromBoc : Bytes → Option (List PCell))
+    (deser : PCell → Option Shard) (deserBlock : PCell → Option BlockInfo) (infoSeqno infoWorkchain : BlockInfo → Int)
+    (shardHashes : Shard → Option ShardDict) (shardGet : ShardDict → Int → Option ShardDescr)
+    (descrList : ShardDescr → List (Option ShardEntry)) (entryRootHash : ShardEntry → Bytes) (proof : Bytes) (blk shrd : BlkId)
+    (r : Option ShardDescr) (hne : blk ≠ shrd)
+    (hacc : check_shard_proof fromBoc deser deserBlock infoSeqno infoWorkchain shardHashes shardGet descrList entryRootHash proof blk shrd = some r) :
+    blk.workchain = -1 ∧ ∃ roots d st, fromBoc proof = some roots ∧ r = some d ∧
+      checkShardProof (shardBlockInfoOk deserBlock infoSeqno infoWorkchain blk.seqno blk.workchain)
+        (fun st => (findShardDescr deser shardHashes shardGet descrList entryRootHash shrd.workchain shrd.rootHash st).isSome)
+        false true roots blk.rootHash = true ∧
+      ((roots[1]?).bind fun s => s.refs[0]?) = some st ∧
+      findShardDescr deser shardHashes shardGet descrList entryRootHash shrd.workchain shrd.rootHash st = some d ∧
+      ∃ dd, shardGet dd shrd.workchain = some d ∧ ∃ e, some e ∈ descrList d ∧ entryRootHash e = shrd.rootHash := by
+  rw [c11_src_shard_full, if_neg hne] at hacc
+  by_cases hwc : blk.workchain = -1
+  swap
+  · rw [if_pos hwc] at hacc; cases hacc
+  refine ⟨hwc, ?_⟩
+  rw [if_neg (by simpa using hwc)] at hacc
+  rcases hb : fromBoc proof with _ | roots
+  · rw [hb] at hacc; cases hacc
+  rw [hb, Option.bind_some] at hacc
+  split at hacc
+  swap
+  · cases hacc
+  rename_i hchk
+  rw [show ((roots[1]?).bind fun s => (s.refs[0]?).bind fun st =>
+        findShardDescr deser shardHashes shardGet descrList entryRootHash shrd.workchain shrd.rootHash st) =
+      ((roots[1]?).bind fun s => s.refs[0]?).bind
+        (fun st => findShardDescr deser shardHashes shardGet descrList entryRootHash shrd.workchain shrd.rootHash st) from by
+    cases roots[1]? <;> rfl] at hacc
+  rcases hx : ((roots[1]?).bind fun s => s.refs[0]?) with _ | st
+  · rw [hx] at hacc; cases hacc
+  rw [hx, Option.bind_some] at hacc
+  rcases hf : findShardDescr deser shardHashes shardGet descrList entryRootHash shrd.workchain shrd.rootHash st with _ | d
+  · rw [hf] at hacc; cases hacc
+  rw [hf, Option.map_some] at hacc
+  refine ⟨roots, d, st, rfl, (Option.some.inj hacc).symm, hchk, hx, hf, ?_⟩
+  unfold findShardDescr at hf
+  rcases hds : deser st with _ | shd
+  · rw [hds] at hf; cases hf
+  rw [hds, Option.bind_some] at hf
+  rcases hsh : shardHashes shd with _ | dd
+  · rw [hsh] at hf; cases hf
+  rw [hsh, Option.bind_some] at hf
+  rcases hg : shardGet dd shrd.workchain with _ | d'
+  · rw [hg] at hf; cases hf
+  rw [hg, Option.bind_some] at hf
+  split at hf
+  swap
+  · cases hf
+  rename_i hany
+  cases hf
+  refine ⟨dd, hg, ?_⟩
+  rw [List.any_eq_true] at hany
+  obtain ⟨x, hx, hm⟩ := hany
+  cases x with
+  | none => cases hm
+  | some e => exact ⟨e, hx, by simpa [entryMatches] using hm⟩
+
+/-- non-vacuity of the shard theorems: with concrete externals (the state cell as its own deserialisation, one descriptor with a pruned
+leaf and a leaf carrying the shard block's root hash) the regenerated function returns `none` for equal ids, raises for a
+non-masterchain block and for an empty bag, and the regenerated loop finds / does not find the leaf. -/
+example :
+    let blk : BlkId := ⟨-1, 0, 5, List.replicate 32 7, []⟩
+    let shrd : BlkId := ⟨0, 0, 9, List.replicate 32 8, []⟩
+    check_shard_proof (Shard := PCell) (BlockInfo := Int × Int) (ShardDict := Unit) (ShardDescr := Nat) (ShardEntry := Bytes)
+        (fun _ => some []) some (fun _ => some (5, -1)) Prod.fst Prod.snd (fun _ => some ()) (fun _ _ => some 1)
+        (fun _ => [none, some (List.replicate 32 8)]) id [] blk blk = some none ∧
+    check_shard_proof (Shard := PCell) (BlockInfo := Int × Int) (ShardDict := Unit) (ShardDescr := Nat) (ShardEntry := Bytes)
+        (fun _ => some []) some (fun _ => some (5, -1)) Prod.fst Prod.snd (fun _ => some ()) (fun _ _ => some 1)
+        (fun _ => [none, some (List.replicate 32 8)]) id [] shrd blk = none ∧
+    check_shard_proof (Shard := PCell) (BlockInfo := Int × Int) (ShardDict := Unit) (ShardDescr := Nat) (ShardEntry := Bytes)
+        (fun _ => some []) some (fun _ => some (5, -1)) Prod.fst Prod.snd (fun _ => some ()) (fun _ _ => some 1)
+        (fun _ => [none, some (List.replicate 32 8)]) id [] blk shrd = none ∧
+    findShardDescr (Shard := PCell) (ShardDict := Unit) (ShardDescr := Nat) (ShardEntry := Bytes) some (fun _ => some ())
+        (fun _ _ => some 1) (fun _ => [none, some (List.replicate 32 8)]) id 0 (List.replicate 32 8) fnChild = some 1 ∧
+    findShardDescr (Shard := PCell) (ShardDict := Unit) (ShardDescr := Nat) (ShardEntry := Bytes) some (fun _ => some ())
+        (fun _ _ => some 1) (fun _ => [none, some (List.replicate 32 8)]) id 0 (List.replicate 32 9) fnChild = none := by
+  decide +kernel
 
 end SrcFull
 
